@@ -6,7 +6,7 @@ import io
 from hypothesis import strategies as st
 
 from pbt import common, gens, libside, refsem
-from pbt.drive import Err, HypStage, Violation, lib
+from pbt.drive import EnumStage, Err, HypStage, Violation, lib
 from pbt.faultio import FaultyStream
 
 ID = "C08"
@@ -20,7 +20,10 @@ RULE = (
     "from a shortened or faulty stream equals the full-input value (definitions with x[EOF]: equals the reference decode "
     "of the shortened input); a fault that withheld a data-carrying byte must raise; an injected OSError never yields a "
     "value; the re-parse after all failures equals the first parse. Non-trivial = consumed >= 2 and a cut strictly inside "
-    "a multi-byte field or bit-field unit; distinct by (definition, cfg, input)."
+    "a multi-byte field or bit-field unit; distinct by (definition, cfg, input). Stage special-counts: records whose array "
+    "count is computed from the data and evaluates to each value the reader might use as an internal marker (and its "
+    "neighbours), followed by further records: every prefix shorter than the record raises EOFError, every longer one "
+    "gives the value of the complete input."
 )
 ASSUMPTIONS = [
     "a short read advances the stream by the delivered bytes only (a parser that ignores it mis-parses and is caught by value comparison)",
@@ -234,12 +237,80 @@ def _run_dyn(case, ctx):
         ctx.sample(dict(what0, touched=touched, read_calls=len(calls)), "dynunion")
 
 
+# counts a complete parse computes from the data, including every value the reader might use as an internal marker
+SPECIAL_COUNTS = [-1, -2, -0xE0F, -0xE0F + 1, -0xE0F - 1, -128, -256, -32768, 0, 1, 3]
+COUNT_ELEMS = {"uint8": 1, "uint16": 2, "char": 1, "wchar": 2, "int24": 3, "E": 2, "S": 3}
+COUNT_FORMS = {"n": 0, "n + 1": 1, "n - 2": -2, "n * 1": 0}
+
+
+def count_cases():
+    for n in SPECIAL_COUNTS:
+        for et in COUNT_ELEMS:
+            for form, delta in COUNT_FORMS.items():
+                if not -32768 <= n - delta <= 32767:
+                    continue
+                for compiled in (False, True):
+                    for endian in "<>":
+                        yield {"counts": True, "count": n, "elem": et, "form": form, "compiled": compiled, "endian": endian}
+
+
+def _run_counts(case, ctx):
+    """struct Root { int16 n; T data[<form of n>]; uint16 tail; } followed by further records in the same stream: the
+    count evaluates to case['count']; the value needs 2 + max(0, count) * sizeof(T) + 2 bytes, every shorter prefix
+    raises EOFError, every longer one gives the value of the complete input and leaves the stream behind the record."""
+    from pbt.drive import import_repo
+
+    m = import_repo()
+    et, form, want = case["elem"], case["form"], max(0, case["count"])
+    n = case["count"] - COUNT_FORMS[form]
+    esize = COUNT_ELEMS[et]
+    cs = m.cstruct(endian=case["endian"])
+    text = "enum E : uint16 { A = 1, B = 2 };\nstruct S { uint8 a; uint16 b; };\n" + f"struct Root {{ int16 n; {et} data[{form}]; uint16 tail; }};\n"
+    r = lib(cs.load, text, compiled=case["compiled"])
+    if isinstance(r, Err):
+        raise Violation("definition-rejected", f"{text}: {r}", r.where)
+    T = cs.Root
+    order = "little" if case["endian"] == "<" else "big"
+    body = b"".join((0x41 + i).to_bytes(2, order) if et == "wchar" else bytes([0x41 + i] * esize) for i in range(want))
+    need = 2 + len(body) + 2
+    data = n.to_bytes(2, order, signed=True) + body + b"\xEE\xEE" + b"\x01\x00\x00\x01" * 3  # further records follow in the same stream
+    what0 = {"definition": f"int16 n; {et} data[{form}]; uint16 tail;", "n": n, "count": case["count"], "data": data.hex(), "compiled": case["compiled"], "endian": case["endian"]}
+    s = io.BytesIO(data)
+    first = lib(T, s)
+    if isinstance(first, Err):
+        raise Violation("accepted-input-rejected", f"{what0} -> {first}", first.where)
+    full = libside.cplain(first)
+    if len(first.data) != want or first.tail != 0xEEEE or s.tell() != need:
+        raise Violation("fabricated-value", f"{what0}: the complete input gives {full!r} and leaves the stream at {s.tell()}; the record is {need} bytes with {want} elements")
+    np_ = 0
+    for k in range(len(data)):
+        cut = data[:k]
+        for fname, call in (("T(stream)", lambda: T(io.BytesIO(cut))), ("T(bytes)", lambda: T(cut))):
+            rk = lib(call)
+            np_ += 1
+            what = dict(what0, cut=k, form=fname)
+            if k < need:
+                if not isinstance(rk, Err):
+                    raise Violation("value-from-truncated-input", f"cut at {k} of a {need}-byte record: returned {libside.cplain(rk)!r}; full input gives {full!r}: {what}")
+                if rk.type != "EOFError":
+                    raise Violation("wrong-exception-type", f"cut at {k}: premature end raised {rk} instead of EOFError: {what}", rk.where, {"exc": rk.type})
+            elif isinstance(rk, Err) or libside.cplain(rk) != full:
+                raise Violation("fabricated-value", f"{k} bytes (the record is {need}): gave {rk if isinstance(rk, Err) else libside.cplain(rk)!r}, the complete input gives {full!r}: {what}")
+    ctx.evaluations += np_
+    ctx.count("special-count:" + ("sentinel" if case["count"] == -0xE0F else "negative" if case["count"] < 0 else "non-negative"))
+    ctx.mark_nontrivial(case)
+    if case["count"] in (-0xE0F, -1, 3):
+        ctx.sample(dict(what0, record_bytes=need, cuts=np_), "special-count")
+
+
 _run_static = run_case
 
 
 def run_case(case, ctx):  # noqa: F811 - dispatch on the case kind
     if case.get("dynunion"):
         return _run_dyn(case, ctx)
+    if case.get("counts"):
+        return _run_counts(case, ctx)
     return _run_static(case, ctx)
 
 
@@ -250,4 +321,5 @@ def stages(tier):
     return [
         HypStage("cuts+faults", trunc_case, examples=600 if q else 8000, shards=10 if q else 16),
         HypStage("dynamic-unions", dynunion_case, examples=300 if q else 3000, shards=2 if q else 4),
+        EnumStage("special-counts", count_cases, shards=2, scope="11 count values (internal markers and their neighbours) x 7 element types x 4 expression forms x both readers x both byte orders, every cut"),
     ]
